@@ -359,6 +359,7 @@ def main():
     ctx.deadline = None
     ctx.hash_by_run = {}
     ctx.covn = 0
+    ctx.known = load_known()
 
     def on_result(variant, idx, js, proc_from=None):
         with ctx.lock:
@@ -375,7 +376,7 @@ def main():
             if "sample" in js and len(ctx.samples) < 6 and (js.get("nontrivial") or len(ctx.samples) < 2):
                 s = dict(js["sample"]); s["run"] = idx; s["variant"] = variant
                 ctx.samples.append(s)
-            if sum(ctx.cand_keys.values()) > 150:
+            if sum(n_ for k_, n_ in ctx.cand_keys.items() if not match_known(ctx.known, prop, k_)) > 150:
                 ctx.stop.set()   # plenty of evidence already: stop the sweep and go on to confirm / minimise
             for v in js.get("violations", []):
                 n = ctx.cand_keys.get(v["key"], 0)
@@ -394,7 +395,7 @@ def main():
         key = crash_key(err, err, rc)
         with ctx.lock:
             ctx.results += 1
-            if sum(ctx.cand_keys.values()) > 150:
+            if sum(n_ for k_, n_ in ctx.cand_keys.items() if not match_known(ctx.known, prop, k_)) > 150:
                 ctx.stop.set()
             n = ctx.cand_keys.get(key, 0)
             ctx.cand_keys[key] = n + 1
